@@ -41,14 +41,12 @@ def is_comment(line):
     :returns: True if the line is a comment
     :rtype: bool
     """
-    upper_start = line[0 : BLANK_SPACE_CONTINUE + 1].upper()
-    non_blank_comment = upper_start and line.lstrip().upper().startswith("C ")
-    if non_blank_comment:
-        return True
-    blank_comment = ("C" == upper_start.strip() and "\n" in line) or (
-        "C" == upper_start and "\n" not in line
-    )
-    return blank_comment
+    # MCNP's rule: the "C" stands in columns 1-5 and is followed by a blank or the end of the line
+    indent = len(line) - len(line.lstrip(" "))
+    if indent >= BLANK_SPACE_CONTINUE:
+        return False
+    start = line[indent : indent + 2].upper()
+    return start == "C" or (len(start) == 2 and start[0] == "C" and start[1].isspace())
 
 
 def make_prop_val_node(
